@@ -44,7 +44,10 @@ EXPLANATION = "FSDP/HSDP blocking = default blocking of the recovered pieces wit
 
 def cases(tier):
     cs = [f"blocking/{c}/{lay}" for c in ("fsdp", "hsdp") for lay in ("L0", "L1", "L2")]
-    cs += ["metadata", "ribare/hsdp", "ctor/hsdp"] + D.update_params_cases("hsdp")
+    cs += ["metadata", "ribare/hsdp", "ctor/hsdp", "commdtype/hsdp"] + D.update_params_cases("hsdp")
+    # "blocks = default blocks of the RECOVERED pieces" uses the recovery contract of C15; its per-level obligations (orders <= 3, both copies)
+    # are re-discharged here so that a change of the recovery itself fails a named obligation of this check as well
+    cs += [f"c15:level/{w}/o{o}/d{d}" for w in ("fsdp", "hsdp") for o in range(0, 4) for d in range(0, max(o, 1))]
     return cs
 
 
@@ -269,6 +272,12 @@ def _metadata_case(case):
 
 
 def run_case(case, tier, seed):
+    if case.startswith("c15:"):
+        from checks import c15 as _c15
+        return _c15.run_case(case[4:], tier, seed)
+    if case.startswith("commdtype/"):
+        from checks import dist as _D
+        return _D.run_comm_dtype(case)
     if case.startswith("blocking/"):
         return _blocking_case(case)
     if case == "metadata":
@@ -327,6 +336,13 @@ def native_fsdp(shapes, nranks, seed, steps=3, maxdim=3):
         ref_params, ref_map = [], []
         for j, shard in enumerate(flat_params):
             m = meta[shard]
+            # the reference must not inherit a defect of the recovery it is built with: the recovered pieces are validated against the
+            # specification of C15 first (ordered gap-free views, every piece of shape (m,) + shape[j+1:] inside one cell, fewest pieces)
+            from checks import c15 as _c15
+            for which_ in ("fsdp", "hsdp"):
+                bad_rec = _c15.native_recovery_check(which_, tuple(m.shape), int(m.start_idx), int(m.end_idx))
+                if bad_rec:
+                    return f"rank {r}: the sub-tensors recovered ({which_} copy) from the shard [{m.start_idx},{m.end_idx}) of a parameter of shape {tuple(m.shape)} are not the specified tensor blocks: {bad_rec}"
             for piece in FSDPDistributor._split_tensor_block_recovery(shard.detach().clone(), m.shape, m.start_idx, m.end_idx):
                 q = torch.nn.Parameter(piece.clone())
                 ref_params.append(q)
@@ -496,7 +512,7 @@ _HUNG = {"n": 0}
 def bounded(tier, seed):
     import random
     rng = random.Random(seed)
-    pool = [(7, 3), (5,), (2, 3, 2), (4, 4), (1, 7), (3, 1, 2, 2), (6,)]
+    pool = [(7, 3), (5,), (2, 3, 2), (4, 4), (1, 7), (3, 1, 2, 2), (6,), (5, 1), (2, 3, 1, 1), (3, 2, 1)]  # incl. trailing singleton dimensions
     n = 8 if tier == "quick" else 60
     evals, viol, distinct = 0, [], set()
     for k in range(n):
@@ -537,6 +553,10 @@ def replay(r):
 
 def replay_file(doc):
     rp = doc.get("replay_input") or {}
+    if rp.get("kind") == "commdtype":
+        from checks import dist as _D
+        bad = _D.native_comm_dtype(rp["copy"])
+        return bool(bad), bad or "communication dtype mapping holds on the real constructor"
     if rp.get("kind") == "hsdp_case":
         bad = native_hsdp(rp["R"], rp["S"], rp["ntpg"], rp["comm"], rp["cp"], rp["seed"])
         return bool(bad), f"{rp}: {bad}"
